@@ -15,7 +15,7 @@
 (*         Stdio::MakePipe streams as found in the returned Child, pgrp                       *)
 (*  fork parent child | sys task nr ret inj | exec task path argv envp ret                   *)
 (*  mark task kind ("returned" res code | "pre" idx) | exit task status                       *)
-(*  waited res status | dump exe argv envp cwd io uid gid pgrp pid                            *)
+(*  waited res status (one per wait / try_wait call, in order) | dump exe argv envp cwd io uid gid pgrp pid                            *)
 (*  anomaly what (timeout, crash, extra task, ...) | end                                      *)
 EXTENDS SpawnAbs, TLC, Json, IOUtils
 
@@ -31,7 +31,7 @@ NoCfg == [bin |-> "-", envAlt |-> << >>, planned |-> << >>, feed |-> ""]
 Fresh(run, c, facts) ==
     [run |-> run, c |-> [c EXCEPT !.envAlt = Range(@), !.planned = Range(@)], facts |-> facts,
      returns |-> << >>, failed |-> {}, child |-> "none", execd |-> FALSE, image |-> NoImage,
-     reaped |-> FALSE, cstatus |-> 0, waitres |-> NoWait,
+     reaped |-> FALSE, cstatus |-> 0, waits |-> NoWaits,
      execargs |-> << >>, attempt |-> {}, anomalies |-> << >>]
 
 Init == i = 1 /\ st = Fresh(0, NoCfg, NoFacts)
@@ -136,12 +136,12 @@ Apply(s, e) ==
       [] e.ev = "dump"    -> OnDump(s, e)
       [] e.ev = "mark"    -> OnMark(s, e)
       [] e.ev = "exit"    -> OnExit(s, e)
-      [] e.ev = "waited"  -> [s EXCEPT !.waitres = [res |-> e.res, status |-> e.status]]
+      [] e.ev = "waited"  -> [s EXCEPT !.waits = Append(@, [res |-> e.res, status |-> e.status])]
       [] e.ev = "anomaly" -> Anomaly(s, e.what)
       [] OTHER            -> Anomaly(s, "UnknownEvent")
 
 ObsOf(s) == [returns |-> s.returns, failed |-> s.failed, child |-> s.child, execd |-> s.execd,
-             image |-> s.image, reaped |-> s.reaped, cstatus |-> s.cstatus, waitres |-> s.waitres]
+             image |-> s.image, reaped |-> s.reaped, cstatus |-> s.cstatus, waits |-> s.waits]
 
 \* In the controlled environment of the check a step fails only when the plan makes it fail
 \* (the injected failure, a configured missing directory / program, a failing closure): any
@@ -158,7 +158,7 @@ Verdict(s) ==
          unplanned |-> Unplanned(s),
          returns |-> [k \in DOMAIN s.returns |-> [proc |-> s.returns[k].proc, res |-> s.returns[k].res, code |-> s.returns[k].code]],
          failed |-> s.failed, child |-> s.child, execd |-> s.execd, reaped |-> s.reaped,
-         cstatus |-> s.cstatus, waitres |-> s.waitres, io |-> s.image.io]
+         cstatus |-> s.cstatus, waits |-> s.waits, io |-> s.image.io]
 
 Next ==
     /\ i <= Len(Rec)
